@@ -796,7 +796,15 @@ def one_case(ctx, rng, idx):
             def body():
                 st = storage(kind)
                 ix = run_history(ctx, st, make_schema(opts), commits, info)
-                obs.update(observe(ctx, ix, probes, removed=remove))
+                # every second alternative layout is searched with a small buffer part size of the array union matcher
+                # (what a 3-clause Or does on a segment beyond 2048 documents happens on these small ones too)
+                from vf import model as _model
+                psz = (2, 5, 16, 64)[(h // 2) % 4] if h % 2 == 1 else None
+                if psz is not None:
+                    ctx.count("c06.small_array_parts")
+                    w["array_partsize(default of ArrayUnionMatcher)"] = psz
+                with _model.array_partsize(psz):
+                    obs.update(observe(ctx, ix, probes, removed=remove))
                 ix.close()
             ctx.count("c06.histories")
             ok, _ = ctx.guard("c06.history", w, body)
